@@ -448,49 +448,85 @@ Verdict judge(const Plan &plan, const sim::Shm *shm, const ChildExit &ex, const 
 
     // ---- model over the observed serialisation order ---------------------------------
     Model model;
+    // "Consecutive" does not say where the numbering starts: the reference counts from 0; the start of each
+    // sequence-number attribute is taken from the first delivery that shows it (evaluate once, align, evaluate again)
+    auto evaluate = [&](Model &model) {
     for (long idx : entry_order) {
-        const sim::Event &e = shm->events[idx];
-        if ((int)e.a < 0) {
-            Content fc;
-            if (!parse_content(sim::ev_str(shm, e), fc))
+            const sim::Event &e = shm->events[idx];
+            if ((int)e.a < 0) {
+                Content fc;
+                if (!parse_content(sim::ev_str(shm, e), fc))
+                    continue;
+                Msg m;
+                m.cid = (int)e.a;
+                m.type = fc.type;
+                m.line = fc.line;
+                m.file = fc.file;
+                m.function = fc.function;
+                m.category = fc.category;
+                m.message = fc.message;
+                m.time_ms = fc.time_ms;
+                model.eval(plan.root, m);
                 continue;
-            Msg m;
-            m.cid = (int)e.a;
-            m.type = fc.type;
-            m.line = fc.line;
-            m.file = fc.file;
-            m.function = fc.function;
-            m.category = fc.category;
-            m.message = fc.message;
-            m.time_ms = fc.time_ms;
-            model.eval(plan.root, m);
-            continue;
-        }
-        auto it = calls.find((int)e.a);
-        if (it == calls.end() || it->second.entry != idx)
-            continue;
-        Call &c = it->second;
-        Msg m;
-        m.cid = c.cid;
-        m.type = c.op->kind == "fatal" ? 3 : c.op->a;
-        m.line = c.cid + 1;
-        const char *xfile = kFiles[(c.op->c & 0xff) % kNumFiles];
-        const char *xfunc = kFunctions[((c.op->c >> 8) & 0xff) % kNumFunctions];
-        m.file = xfile ? xfile : "";
-        m.function = xfunc ? xfunc : "";
-        m.category = kCategories[c.op->b % kNumCategories];
-        m.message = c.text;
-        m.time_ms = c.ec.time_ms;
-        int flags = c.op->c >> 16;
-        if (plan.target == "bare") {
-            if (flags & 1) {
-                m.formatted = true;
-                m.fmt = "PRE<" + std::to_string(c.cid) + ">";
             }
-            if (flags & 2)
-                m.attrs["pre"] = std::to_string(c.cid);
+            auto it = calls.find((int)e.a);
+            if (it == calls.end() || it->second.entry != idx)
+                continue;
+            Call &c = it->second;
+            Msg m;
+            m.cid = c.cid;
+            m.type = c.op->kind == "fatal" ? 3 : c.op->a;
+            m.line = c.cid + 1;
+            const char *xfile = kFiles[(c.op->c & 0xff) % kNumFiles];
+            const char *xfunc = kFunctions[((c.op->c >> 8) & 0xff) % kNumFunctions];
+            m.file = xfile ? xfile : "";
+            m.function = xfunc ? xfunc : "";
+            m.category = kCategories[c.op->b % kNumCategories];
+            m.message = c.text;
+            m.time_ms = c.ec.time_ms;
+            int flags = c.op->c >> 16;
+            if (plan.target == "bare") {
+                if (flags & 1) {
+                    m.formatted = true;
+                    m.fmt = "PRE<" + std::to_string(c.cid) + ">";
+                }
+                if (flags & 2)
+                    m.attrs["pre"] = std::to_string(c.cid);
+            }
+            model.eval(plan.root, m);
         }
-        model.eval(plan.root, m);
+    };
+    evaluate(model);
+    {
+        std::map<int, int> offset;
+        size_t n0 = std::min(model.out.size(), actual.size());
+        for (size_t i = 0; i < n0; i++) {
+            auto ea = split(model.out[i].attrs, '\x1e'), aa = split(actual[i].c.attrs, '\x1e');
+            for (auto &kv : ea) {
+                size_t eq = kv.find('=');
+                if (eq == std::string::npos)
+                    continue;
+                std::string key = kv.substr(0, eq);
+                int which = key == "seq" ? 0 : (key == "seq2" ? 1 : -1);
+                if (which < 0 || offset.count(which))
+                    continue;
+                for (auto &kv2 : aa)
+                    if (kv2.compare(0, eq + 1, kv.substr(0, eq + 1)) == 0)
+                        offset[which] = atoi(kv2.c_str() + eq + 1) - atoi(kv.c_str() + eq + 1);
+            }
+        }
+        bool shifted = false;
+        for (auto &kv : offset)
+            if (kv.second != 0)
+                shifted = true;
+        if (shifted) {
+            Model m2;
+            for (auto &kv : offset)
+                m2.st.seq[kv.first] = kv.second;
+            evaluate(m2);
+            model = m2;
+            v.probes["sequence_numbers_do_not_start_at_0"] = 1;
+        }
     }
 
     // compare expected and actual deliveries, in order
@@ -767,10 +803,12 @@ Verdict judge(const Plan &plan, const sim::Shm *shm, const ChildExit &ex, const 
             bool never_async = worker_tids.empty() || c.ret < worker_tids[0].first;
             if (sync_phase || never_async) {
                 after_sync += sync_phase ? 1 : 0;
-                if (c.n_entry == 0 || c.entry_tid != c.caller_tid || c.exit < 0 || c.exit > c.ret)
+                // "synchronously": delivered by the time the call returns (which thread runs the handlers
+                // is not laid down - a lock holder may deliver for a waiting caller)
+                if (c.n_entry == 0 || c.exit < 0 || c.exit > c.ret)
                     fail(v, "not-synchronous",
                          "message " + clip(c.text, 40) + " was logged while no worker existed but was not "
-                                 "delivered on the caller's thread before the call returned");
+                                 "delivered before the call returned");
             }
         }
         // (d) no handler work on a stopped worker, none after the handler is gone
